@@ -62,6 +62,15 @@ func c01Witness(w *core.WorkerCtx) {
 		m := world.NewTrx(u[0], u[2].Addr, spice.Melange{}, []byte("confirm"))
 		world.Propose(n, &m, "confirm")
 	}
+	// the known finding ends here: the checkpoint holds 0 for W (debt 10 clamped), W received 10 and spent 10. A
+	// further spend has nothing behind it in the node's own books either and must not be confirmed (it would be if the
+	// checkpoint had kept W's inflow and forgotten its spends)
+	s2 := world.NewTrx(u[1], u[4].Addr, spice.Melange{Currency: 10}, nil)
+	world.Propose(n, &s2, "W spends 10 more")
+	for i := 0; i < 2; i++ {
+		m := world.NewTrx(u[0], u[2].Addr, spice.Melange{}, []byte("confirm"))
+		world.Propose(n, &m, "confirm")
+	}
 	world.EvalFor("C01", 1)
 	world.NontrivFor("C01", "witness/issuer-overdrawn-in-checkpoint")
 	tr := world.Trace
